@@ -18,7 +18,8 @@ def run(ctx):
     common.standard(
         ctx, harness="hC09", extracted="C09_model", driver_dir="C09",
         rule=("one case = one engine run (real provider of one format with a `headers` option list, preload on/off + real http gun, "
-              "1-4 instances, plain or TLS target answering with a generated status and body size 0 B..1.2 MB, keep-alive on/off); non-trivial: the configuration defines headers and either some key "
+              "1-3 pools in the run each with its own target on another port of the same host (127.0.0.1 or localhost), targets up or down "
+              "while the configuration is decoded, 1-4 instances per pool, plain or TLS target answering with a generated status and body size 0 B..1.2 MB, keep-alive on/off); non-trivial: the configuration defines headers and either some key "
               "(canonical form) is defined both by the configuration and by an entry/in-file header, or the file has more "
               "than one item; distinct = distinct case lines. Header comparison: map sorted by canonical key, value lists in "
               "order; dropped from the recorded request because net/http writes them on its own account: Content-Length "
